@@ -270,3 +270,70 @@ def rankings_exhaustive(ctx, d):
         prev = cur
         vals.append(cur[0])
     ctx.mark_nontrivial(len(set(vals)) > 1)
+
+
+# ---- exhaustive label mixes: mAP / mAPH over three labels whose buckets change status at different thresholds -----
+
+MAP_LABELS3 = ["car", "pedestrian", "bicycle"]
+BUCKETS = ["", "A", "B", "C", "F", "AB", "BC", "CA", "FB", "HC"]
+
+
+def _sym_result_l(sym, rank, label):
+    key = (sym, rank, label)
+    if key not in _RC:
+        from perception_eval.evaluation.result.object_result import DynamicObjectWithPerceptionResult
+
+        g = {"p": [10.0, 5.0, 0.0], "yaw": 0.3, "size": [2.0, 4.0, 1.5], "label": label, "score": 1.0}
+        spec = SYM[sym]
+        e = {"p": [10.0 + (spec[0] if spec else 0.0), 5.0, 0.0], "yaw": 0.3 + (spec[1] if spec else 0.0), "size": [2.0, 4.0, 1.5], "label": label, "score": 1.0 - (rank + 1) / 64.0}
+        _RC[key] = DynamicObjectWithPerceptionResult(D.obj3d(e), D.obj3d(g) if spec else None)
+    return _RC[key]
+
+
+def gen_label_mixes(tier):
+    import itertools
+
+    pool = BUCKETS if tier == "thorough" else BUCKETS[:8]
+    for combo in itertools.product(pool, repeat=3):
+        if sum(1 for c in combo if c) >= 2:
+            yield {"buckets": list(combo), "extra": (len(combo[0]) + len(combo[2])) % 2}
+
+
+@CHECK.enum("label_mixes", gen_label_mixes)
+def label_mixes(ctx, d):
+    """mAP / mAPH of one fixed result set over three labels under uniformly and per-label loosened thresholds."""
+    from perception_eval.evaluation.matching.object_matching import MatchingMode
+    from perception_eval.evaluation.metrics.detection.map import Map
+
+    lt = D.labels(MAP_LABELS3)
+    res = {t: [_sym_result_l(s, i, lab) for i, s in enumerate(b)] for t, lab, b in zip(lt, MAP_LABELS3, d["buckets"])}
+    num = {t: sum(1 for s in b if s != "F") + d["extra"] for t, b in zip(lt, d["buckets"])}
+
+    def ev(thr):
+        out = None
+        with ctx.under_test("Map(...)"):
+            m = Map(object_results_dict={t: list(v) for t, v in res.items()}, num_ground_truth_dict=dict(num), target_labels=lt, matching_mode=MatchingMode.CENTERDISTANCE, matching_threshold_list=list(thr))
+            out = {"ap": [a.ap for a in m.aps], "aph": [a.ap for a in m.aphs], "map": m.map, "maph": m.maph}
+        return out
+
+    sweeps = [[(t, t, t) for t in (0.0, 0.5, 1.0, 5.0)]]
+    for i in range(3):
+        sweeps.append([tuple(t if k == i else 0.5 for k in range(3)) for t in (0.0, 0.5, 1.0, 5.0)])
+    changed = False
+    for sw in sweeps:
+        prev = None
+        for thr in sw:
+            cur = ev(thr)
+            if cur is None:
+                return
+            if prev is not None:
+                pt, pv = prev
+                for i, lab in enumerate(MAP_LABELS3):
+                    _mono(ctx, pv["ap"][i], cur["ap"][i], f"AP[{lab}] of buckets {d['buckets']} ({pt} -> {thr})", "ap-decreases")
+                    _mono(ctx, pv["aph"][i], cur["aph"][i], f"APH[{lab}] of buckets {d['buckets']} ({pt} -> {thr})", "aph-decreases")
+                _mono(ctx, pv["map"], cur["map"], f"mAP of buckets {d['buckets']} (thresholds {pt} -> {thr}; per-label AP {pv['ap']} -> {cur['ap']})", "map-decreases")
+                _mono(ctx, pv["maph"], cur["maph"], f"mAPH of buckets {d['buckets']} (thresholds {pt} -> {thr}; per-label APH {pv['aph']} -> {cur['aph']})", "maph-decreases")
+                if pv["map"] != cur["map"]:
+                    changed = True
+            prev = (thr, cur)
+    ctx.mark_nontrivial(changed)
